@@ -1,24 +1,37 @@
 #!/bin/bash
-# usage: try_seeded.sh <patch.diff> <property id>...   Applies the patch to /repo, runs the quick checks, restores /repo.
+# usage: try_seeded.sh <patch.diff> <property id>...
+# Applies the patch to a SCRATCH copy of /repo (git worktree of /repo's HEAD under $ALT, default /tmp/alt) and runs the quick checks against
+# that copy through a scratch copy of the harness whose path dependencies point there (VERIF_REPO / VERIF_HARNESS_DIR, read by lib/common.py).
+# /repo itself is never touched, so background runs and my own checks are not disturbed.  ALT=/repo-less runs can go on in parallel with
+# different ALT directories.
 set -u
 PATCH=$1; shift
-cd /repo && git status --short | grep -q . && { echo "/repo not clean"; exit 2; }
+ALT=${ALT:-/tmp/alt}
+if [ ! -d $ALT/repo ]; then
+  mkdir -p $ALT && git -C /repo worktree add -q --detach $ALT/repo HEAD || exit 2
+fi
+if [ ! -d $ALT/harness ]; then
+  mkdir -p $ALT/harness && cp -r /verif/harness/src /verif/harness/Cargo.toml /verif/harness/Cargo.lock /verif/harness/.cargo $ALT/harness/ || exit 2
+fi
+# keep the scratch harness in step with /verif/harness
+rsync -a --delete /verif/harness/src/ $ALT/harness/src/ && cp /verif/harness/Cargo.lock $ALT/harness/ && sed "s#/repo/#$ALT/repo/#g" /verif/harness/Cargo.toml > $ALT/harness/Cargo.toml
+cd $ALT/repo && git checkout -q --detach $(git -C /repo rev-parse HEAD) && git reset -q --hard && git clean -qfd -e target || exit 2
 if ! git apply "$PATCH" 2>/dev/null; then
-  if true; then
-    # (never patch with fuzz: it can silently put the hunk in the wrong place)  the change rewrites code around the cfg-guarded hook lines: take the touched files as they were before the hook commits
-    # (the hooks in those files are lost, exactly as they would be in such a rewrite) and apply the change to that
-    git checkout -q -- .; find . \( -name '*.orig' -o -name '*.rej' \) -not -path './target/*' -delete
-    for f in $(grep -E '^\+\+\+ b/' "$PATCH" | sed 's#^+++ b/##'); do git show 3e8c7e9:"$f" > "$f"; done
-    git apply "$PATCH" || { echo "patch does not apply"; git checkout -q -- .; exit 2; }
-    echo "NOTE applied on the pre-hook version of the touched files (hooks in those files dropped)"
-  fi
+  # (never patch with fuzz: it can silently put the hunk in the wrong place)  the change rewrites code around the cfg-guarded hook lines: take the touched files as they were before the hook commits
+  # (the hooks in those files are lost, exactly as they would be in such a rewrite) and apply the change to that
+  git reset -q --hard; find . \( -name '*.orig' -o -name '*.rej' \) -not -path './target/*' -delete
+  for f in $(grep -E '^\+\+\+ b/' "$PATCH" | sed 's#^+++ b/##'); do git show 3e8c7e9:"$f" > "$f" 2>/dev/null; done
+  git apply "$PATCH" || { echo "patch does not apply"; git reset -q --hard; exit 2; }
+  echo "NOTE applied on the pre-hook version of the touched files (hooks in those files dropped)"
 fi
 find . -name '*.orig' -not -path './target/*' -delete
 (cargo build --offline -q 2>&1 | grep -E '^error' | head -3)
 cd /verif
+export VERIF_REPO=$ALT/repo VERIF_HARNESS_DIR=$ALT/harness VERIF_EVIDENCE_DIR=$ALT/evidence VERIF_REPLAY_DIR=$ALT/replays
+mkdir -p $ALT/evidence $ALT/replays
 for p in "$@"; do
   out=$(bin/check $p --tier ${TIER:-quick} 2>&1); rc=$?
   echo "== $p exit=$rc $(echo "$out" | grep -c '^VIOLATION') violation line(s)"
   echo "$out" | grep -E '^VIOLATION|^  what|TOOL-ERROR|HARNESS' | head -6
 done
-cd /repo && git checkout -q -- . && git status --short | head -3
+cd $ALT/repo && git reset -q --hard && git clean -qfd -e target
